@@ -176,7 +176,21 @@ EXTRA_THEOREMS = {
 # translator phases: (tool, root module of its agreement theorems)
 TIE_PHASES = [("rs2lean.py", "TranslatedAgree"), ("rs2lean2.py", "TranslatedAgreeB"), ("rs2lean3.py", "TranslatedAgreeC"),
               ("rs2lean4.py", "TranslatedAgreeD"), ("rs2lean5a.py", "TranslatedAgreeE"), ("rs2lean5b.py", "TranslatedAgreeF"),
-              ("rs2lean6a.py", "TranslatedAgreeG"), ("rs2lean6b.py", "TranslatedAgreeH")]
+              ("rs2lean6a.py", "TranslatedAgreeG"), ("rs2lean6b.py", "TranslatedAgreeH"),
+              ("rs2lean6c.py", "TranslatedAgreeI"), ("rs2lean6d.py", "TranslatedAgreeJ"), (None, "TranslatedAgreeJ8")]
+
+# phase 6c (renderer, serde bridge, remaining editors: Proofs/TranslatedAgreeI*), 6d (path parsers / printers: TranslatedAgreeJ*, bridge J8)
+_REN = ["to_string_encodeSpec_agrees", "to_string_encodeSpec_spec", "to_pretty_string_encodeSpec_agrees", "to_pretty_string_encodeSpec_spec", "to_string_agrees", "container_to_string_agrees"]
+_SER = ["to_serde_json_encodeSpec_agrees", "to_serde_json_encodeSpec_spec", "to_serde_json_object_encodeSpec_agrees"]
+_ED2 = ["strip_nulls_encodeSpec_agrees", "object_insert_jsonb_agrees", "object_insert_encodeSpec_agrees", "delete_by_keypath_encodeSpec_agrees", "delete_by_keypath_jsonb_agrees",
+        "build_array_agrees", "build_object_agrees"]
+_KPP = ["check_escaped_split", "raw_string_agrees", "string_agrees", "parse_key_paths_agrees", "parse_key_paths_model", "key_path_fmt_agrees", "key_paths_fmt_agrees", "parse_key_paths_translated"]
+_JPP = ["check_escaped_split", "raw_string_agrees", "string_agrees", "expr_or_agr", "json_path_agr", "parse_json_path_agrees", "parse_json_path_model", "index_fmt_agrees",
+        "array_index_fmt_agrees", "path_value_fmt_agrees", "binary_operator_fmt_agrees", "unary_arith_operator_fmt_agrees", "binary_arith_operator_fmt_agrees",
+        "path_fmt_agrees", "expr_fmt_agrees", "json_path_fmt_agrees", "parse_json_path_translated"]
+for _p, _l in {"C03": _REN, "C19": _SER + _REN[:2], "C06": _ED2, "C07": _ED2[:5], "C13": ["array_overlap_encodeSpec_agrees"], "C17": ["build_array_agrees", "build_object_agrees"],
+               "C16": _KPP, "C09": _JPP, "C20": ["delete_by_keypath_encodeSpec_agrees", "to_pretty_string_encodeSpec_agrees"]}.items():
+    TIE[_p] = TIE[_p] + [x for x in _l if x not in TIE[_p]]
 
 # phase 6a (selector.rs + path functions, Proofs/TranslatedAgreeG*), 6b (parser.rs + util.rs, Proofs/TranslatedAgreeH*)
 _SELW = ["select_object_values_agrees", "select_array_values_agrees", "select_by_name_agrees", "select_by_indices_agrees", "select_path_agrees", "find_positions_agrees",
@@ -221,18 +235,35 @@ for _p, _l in {"C05": _ACC + _CASTS, "C11": _WHOLE, "C18": _CASTS, "C07": ["get_
 
 
 def tie_sources(name, functions):
-    """the source declarations an agreement theorem is about: the explicit table, or by its name"""
+    """the source declarations an agreement theorem is about: the explicit table, or by its name
+    (suffixes such as _agrees / _whole / _encodeSpec_spec / _translated stripped, `parser_` prefix dropped)"""
     if name in TIE_SOURCES:
         return TIE_SOURCES[name]
     import re as _re
-    stem = _re.sub(r"_(fn_agrees|agrees_eq|agrees'|agrees|sim|whole|jsonb|lazy|model|cases|loop|drain|run|overflow)$", "", name)
+    stem = name
+    while True:
+        t = _re.sub(r"(_fn_agrees|_agrees_eq|_agrees'|_agrees|_agr|_sim|_whole|_jsonb|_doc|_lazy|_model|_cases|_loop|_drain|_run|_overflow|_encodeSpec|_spec|_translated|_split|_text)$", "", stem)
+        if t == stem:
+            break
+        stem = t
     stem = _re.sub(r"^parser_", "", stem)
-    return [k for k in functions if k.endswith("::" + stem)]
+    hits = [k for k in functions if k.endswith("::" + stem) or k.endswith("::" + stem + "_jsonb")]
+    if not hits and stem.endswith("_fmt"):
+        # Display impls: `path_value_fmt` is about `PathValue::fmt`
+        want = stem[:-4].replace("_", "")
+        hits = [k for k in functions if k.endswith("::fmt") and k.split("::")[-2].lower() == want]
+    if not hits:
+        # functions whose public name differs from the translated worker
+        extra = {"strip_nulls": ["strip_nulls_jsonb", "strip_nulls_array", "strip_nulls_object"], "convert_expr_val_paths": ["convert_expr_val"],
+                 "delete_by_keypath": ["delete_by_keypath_jsonb"]}
+        for e in extra.get(stem, []) + extra.get(name, []):
+            hits += [k for k in functions if k.endswith("::" + e)]
+    return hits
 
 TRUSTED_BASE = [
     "Lean 4.33.0 kernel (thorough tier re-checks the theorem module with leanchecker)",
     "axioms: only propext, Classical.choice, Quot.sound (audited per theorem by #print axioms on every run); no native_decide, no bv_decide, no user axioms, no sorry",
-    "tools/rs2lean.py + rs2lean2.py + rs2lean3.py + rs2lean4.py + rs2lean5a.py + rs2lean5b.py + rs2lean6a.py + rs2lean6b.py (translators of about 200 functions of /repo/src to Lean: number codec and order, entry words, index arithmetic, byte walkers, iterators, entry patching, escaper, the recursive Decoder of de.rs and Encoder of ser.rs, the builders of builder.rs and eleven byte-level editors / set functions and 31 read-only accessors and casts, the compare / comparable-key / contains families of functions.rs, the JSONPath selector and the path functions, and the JSON text parser with util.rs; regenerated every run) with lean/JsonbModel/RustPrelude*.lean (hand-written meaning of the Rust primitives they emit: integer casts, checked arithmetic, byte conversions, slices, loops as bounded folds, recursion on explicit fuel, BTreeMap as a sorted list, from_utf8 as validUtf8, OrderedFloat); the agreement theorems tie their output to the model",
+    "tools/rs2lean.py + rs2lean2.py + rs2lean3.py + rs2lean4.py + rs2lean5a.py + rs2lean5b.py + rs2lean6a.py + rs2lean6b.py + rs2lean6c.py + rs2lean6d.py (translators of about 280 declarations — practically every function of the crate the properties are about of /repo/src to Lean: number codec and order, entry words, index arithmetic, byte walkers, iterators, entry patching, escaper, the recursive Decoder of de.rs and Encoder of ser.rs, the builders of builder.rs and eleven byte-level editors / set functions and 31 read-only accessors and casts, the compare / comparable-key / contains families of functions.rs, the JSONPath selector and the path functions, the JSON text parser with util.rs, the renderer, the serde bridge, the remaining editors, and the JSONPath / key-path parsers and printers over a table nom combinator -> Nom.lean definition; regenerated every run) with lean/JsonbModel/RustPrelude*.lean (hand-written meaning of the Rust primitives they emit: integer casts, checked arithmetic, byte conversions, slices, loops as bounded folds, recursion on explicit fuel, BTreeMap as a sorted list, from_utf8 as validUtf8, OrderedFloat); the agreement theorems tie their output to the model",
     "tools/gen_constants.py (translator constants.rs -> Lean) and the line-protocol glue (lean/JsonbModel/Driver/*.lean, harness/src/wire.rs)",
     "the correspondence check itself: the hand-written implementation model is tied to /repo by sampled differential runs (request stream of this run, see coverage)",
     "modelled, not verified: Rust slice/Vec/integer-cast semantics, BTreeMap ordering, byteorder; the spec layer is my reading of the README and the property text",
